@@ -327,6 +327,12 @@ pub fn run(seed: u64, count: u64, out: &mut dyn Write, stats: &mut Stats) {
         };
         let nops = 8 + r.below(40);
         for k in 0..nops {
+            if k == 0 && r.chance(9, 10) {
+                let ok = vh.exec("owner", ExecuteMsg::SetOpen { open: true }).is_some();
+                writeln!(out, "VOP h={} k=0 op=setopen snd={} uopen=1 ok={} time={} height={} {}", h, addr_id("owner"), ok as u8,
+                    vh.env.block.time.seconds(), vh.env.block.height, vh.state_tokens()).unwrap();
+                continue;
+            }
             // time / block schedule: same block bursts, single steps, gaps
             match r.below(10) {
                 0..=3 => {}
@@ -573,7 +579,7 @@ pub fn step(vh: &mut VH, r: &mut Rng, stats: &mut Stats) -> String {
         let resp = vh.exec(snd, ExecuteMsg::SetOpen { open });
         stats.count("op", "setopen");
         stats.count("class", &format!("setopen:{}:{}:{}", snd, open, resp.is_some()));
-        format!("op=setopen snd={} open={} ok={}", addr_id(snd), open as u8, resp.is_some() as u8)
+        format!("op=setopen snd={} uopen={} ok={}", addr_id(snd), open as u8, resp.is_some() as u8)
     } else if choice < 99 {
         // ---- update_config with boundary values, single and combined fields
         let snd = if r.chance(1, 6) { *r.pick(&["engine", "stranger", "insurance"]) } else { "owner" };
@@ -615,7 +621,7 @@ pub fn step(vh: &mut VH, r: &mut Rng, stats: &mut Stats) -> String {
         stats.count("op", "updcfg");
         stats.count("class", &format!("updcfg:{}:{}:{}:{}:{}", snd == "owner", toll.map(|x| x > d).unwrap_or(false), spread.map(|x| x > d).unwrap_or(false), twi.map(|x| x < 60 || x > 604800).unwrap_or(false), resp.is_some()));
         format!(
-            "op=updcfg snd={} cap={} oic={} toll={} spread={} fluct={} eng={} twi={} ok={}",
+            "op=updcfg snd={} ucap={} uoic={} utoll={} uspread={} ufluct={} ueng={} utwi={} ok={}",
             addr_id(snd), o(cap), o(oic), o(toll), o(spread), o(fluct),
             eng.map(|s| addr_id(s).to_string()).unwrap_or_else(|| "none".into()),
             twi.map(|v| v.to_string()).unwrap_or_else(|| "none".into()),
